@@ -63,6 +63,11 @@ CHECKS = {
    text="Every generated document is loaded, formatted, searched, path-listed, probed at every line, updated and driven through the in-memory LSP server; oracle is absence of panic, abort and hang.",
    note="Release build without overflow checks (what ships). Hang detection is a 10^4x watchdog, not a termination proof.", ref="7/C03"),
 }
+FUZZED = ["C01","C02","C03","C04","C05","C06","C07","C08","C09","C10","C12","C13","C15","C17","C18","C20"]
+for _c in FUZZED:
+    CHECKS[_c]["technique"] += "; the thorough tier adds coverage-guided fuzzing (cargo-fuzz / libFuzzer) that drives the same strategy through a pass-through RNG and runs the same oracle inside the target" + (", plus a byte-level target on raw note text" if _c == "C03" else "")
+CHECKS["C11"]["technique"] += "; a sub-space (<= 1 request quick / <= 2 requests thorough, <= 2 notifications, every advance pattern) is enumerated completely"
+CHECKS["C05"]["technique"] += "; every library is judged twice: imported, and reached through updates of every note"
 ALL = ["C%02d" % i for i in range(1, 21)]
 NOT_YET = "check not built yet in this session (work in progress; the design in DESIGN.md section 7 applies)"
 def main():
@@ -73,7 +78,7 @@ def main():
       "hooks": {"guard": "verif", "enable": "cargo feature `verif` on crate iwes; /verif/engine depends on iwes with features = [\"verif\"]", 
                 "baseline_off_cmd": "cd /repo && cargo test --workspace --no-fail-fast --offline", "source_commits": ["a2bdc31"], "add_only": True},
       "engines": [{"name": "vcheck", "path": "/verif/engine", "serves_properties": claimed,
-                   "kind_free_text": "Rust crate: proptest-driven generators, independent pulldown-cmark scanner, supervisor/worker processes, known-findings policy"}],
+                   "kind_free_text": "Rust crate: proptest-driven generators, independent pulldown-cmark scanner, supervisor/worker processes, known-findings policy; cargo-fuzz targets in engine/fuzz for the thorough tier"}],
       "checks": [],
       "not_applicable": [],
       "notes": "Quick tier: fixed work (case counts). Exit 0 held / 1 violation (VIOLATION line) / 2 inconclusive. Known findings: /verif/known_findings.json.",
